@@ -23,7 +23,7 @@ TRUSTED = [
 ]
 
 # case budget per tier: (--cases argument of the harness)
-NCASES = {"C05": (150, 1500), "C06": (90, 700), "C07": (240, 2400)}
+NCASES = {"C05": (150, 1000), "C06": (90, 400), "C07": (240, 1600)}
 
 _orig_eval = gv.coq_eval
 
